@@ -505,3 +505,46 @@ def boolean_operand_layer(ctx, bk):
     terms = boolean_operand_terms(bk.cap)
     ctx.pmap(_deep_unit, [(bk.name, terms[i::48]) for i in range(48) if terms[i::48]])
     return len(terms)
+
+
+# ---------------------------------------------------------------- refusable terms: and/or/not as an operand of eq / ne / a null test
+LIB_REFUSALS = ("TypeException", "ArgumentTypeException", "UnsupportedFunctionException", "ValueException")
+
+
+def refusable_terms(cap):
+    """A backend may refuse these with a library exception (the ORM backends document that and/or/not is not a comparison operand);
+    if it answers, the rows must be right."""
+    n, s, b, c = typed.F("n"), typed.F("s"), typed.F("b"), typed.F("b")
+    logic = [T.unop("Not", T.binop("Eq", b, T.Bool(True))), T.unop("Not", T.binop("Gt", n, T.Int(0))), T.binop("And", T.binop("Gt", n, T.Int(0)), T.binop("Eq", s, T.Str("a"))),
+             T.binop("Or", T.binop("Eq", n, T.NULL), T.binop("Eq", b, T.Bool(False))), T.unop("Not", T.call("contains", s, T.Str("a")))]
+    out = []
+    for l in logic:
+        out += [T.binop("Eq", l, T.NULL), T.binop("NotEq", l, T.NULL), T.binop("Eq", T.NULL, l), T.binop("Eq", l, T.Bool(True)), T.binop("NotEq", l, T.Bool(False)),
+                T.binop("Eq", l, T.binop("Gt", n, T.Int(0))), T.binop("Eq", T.binop("Eq", s, T.Str("a")), l), T.unop("Not", T.binop("Eq", l, T.NULL))]
+    return out
+
+
+def _refusable_unit(unit):
+    bname, terms = unit
+    bk = _BK[bname]
+    acc = Acc()
+    for term in terms:
+        cols = colkey(typed.fields_of(term))
+        acc.count("states")
+        for st in ("min", "full"):
+            tx = to_odata(term, st)
+            for var in bk.variants[:1]:
+                got = bk.run(tx, cols, var)
+                if isinstance(got, tuple) and got[1] in LIB_REFUSALS:
+                    acc.count("executions")
+                    acc.outcome(("refused", got[1]))
+                    continue
+                judge(acc, bk.name, term, tx, cols, got, bk.defect_models, {"variant": var, "style": st, "cols": list(cols), "layer": "refusable"})
+    return acc
+
+
+def refusable_layer(ctx, bk):
+    _BK[bk.name] = bk
+    terms = refusable_terms(bk.cap)
+    ctx.pmap(_refusable_unit, [(bk.name, terms[i::16]) for i in range(16) if terms[i::16]])
+    return len(terms)
